@@ -173,10 +173,6 @@ theorem act_steps : ∀ (s : Shape), okShape A s = true → ∀ (cs : List Call)
         simp only [leavesAbs, leaves]
         cases c with
         | progress => simp [step, A.neutral .progress rfl]
-        | startTestRun =>
-          simp only [step]
-          rw [act_stepL ss hs', act_restoreL ss hs', act_stepL ss hs', act_stepL ss hs']
-          simp [A.neutral (.setFailfast _) rfl]
         | _ => simp only [step]; exact act_stepL ss hs' _ _
       rw [hstep]
       simp [List.map_map, Function.comp_def]
@@ -189,14 +185,6 @@ theorem act_stepL : ∀ (ss : List Shape), okShapeL A ss = true → ∀ (st : St
       have := act_steps s hs.1 [c] x
       simp only [leavesAbs, List.foldl_cons, List.foldl_nil] at this
       simp only [leavesL, stepL, List.map_append, this, act_stepL ss hs.2 xs c]
-theorem act_restoreL : ∀ (ss : List Shape), okShapeL A ss = true → ∀ (st : StL ss) (saved : List Bool),
-    (leavesL ss (restoreL ss st saved)).map A.abs = (leavesL ss st).map A.abs
-  | [], _, _, _ => rfl
-  | s :: ss, hs, (x, xs), saved => by
-      simp only [okShapeL, okShapeGL, Bool.and_eq_true] at hs
-      have := act_steps s hs.1 [.setFailfast (saved.headD false)] x
-      simp only [leavesAbs, List.foldl_cons, List.foldl_nil, A.neutral (.setFailfast _) rfl, List.map_id'] at this
-      simp only [leavesL, restoreL, List.map_append, this, act_restoreL ss hs.2 xs _]
 end
 
 end TTV.Lemmas.LeafAct
